@@ -3553,6 +3553,11 @@ func (t *translator) emitCodecs(b *bytes.Buffer) {
 		}
 		return fmt.Sprintf("Some (sres (fun r => %s r) (%s))", f, call)
 	}
+	if len(t.mOracles) > 0 {
+		// the functions of this module take function-valued oracles: no by-name dispatch (Check/SrcCheck.v calls them
+		// with the instantiations of Check/XrOracles.v)
+		return
+	}
 	b.WriteString("(* ---- the translated methods by Go type name ---- *)\n")
 	b.WriteString("Definition src_unmarshal (n : string) (b : bytes) : option sval :=\n")
 	for _, e := range byMethod["unmarshal"] {
@@ -3636,11 +3641,53 @@ func (t *translator) emitCodecs(b *bytes.Buffer) {
 	b.WriteString("\n")
 }
 
+// emitEntryPoints: fixed-signature entry points for Check/SrcCheck.v that exist whether or not the function behind them
+// could be translated (`None` when it left the fragment, or when its oracles are not the expected ones): the executable
+// check has to keep compiling when a function becomes untranslatable, or there is nothing to search for a failing input with.
+func (t *translator) emitEntryPoints(b *bytes.Buffer, mod string) {
+	has := func(k string) bool { _, ok := t.sigs[k]; return ok }
+	switch mod {
+	case "GoSrc":
+		b.WriteString("(* ---- NackPair.PacketList / NackPair.Range (with a callback that records its argument and answers false on call k) ---- *)\n")
+		if has("NackPair.PacketList") {
+			b.WriteString("Definition src_plist (id bm : Z) : option sval := Some (sres (fun l => SL (map zn l)) (NackPair_PacketList (mkNackPair id bm))).\n")
+		} else {
+			b.WriteString("Definition src_plist (id bm : Z) : option sval := None.\n")
+		}
+		if sg, ok := t.sigs["NackPair.Range"]; ok && sg.cbIdx > 0 && !sg.pure {
+			b.WriteString("Definition src_range (id bm : Z) (k : option nat) : option sval :=\n  Some (sres (fun s : nat * list Z => SL (map zn (snd s)))\n    (NackPair_Range _ (fun s x => ((S (fst s), List.app (snd s) [x]), match k with Some k => negb (Nat.eqb (fst s) k) | None => true end))\n       (mkNackPair id bm) (0%nat, []))).\n\n")
+		} else {
+			b.WriteString("Definition src_range (id bm : Z) (k : option nat) : option sval := None.\n\n")
+		}
+	case "GoSrcXr":
+		want := []string{"o_read_uint32 : packetBuffer -> Z -> res (packetBuffer * Z)", "o_read_XRHeader : packetBuffer -> XRHeader -> res (packetBuffer * XRHeader)",
+			"o_read_ReportBlock : packetBuffer -> ReportBlock -> res (packetBuffer * ReportBlock)"}
+		same := len(t.mOracles) == len(want)
+		for i := range want {
+			same = same && t.mOracles[i] == want[i]
+		}
+		b.WriteString("(* ---- ExtendedReport.Unmarshal on a zero receiver, given the three read oracles ---- *)\n")
+		b.WriteString("Definition src_xr_unmarshal (r32 : packetBuffer -> Z -> res (packetBuffer * Z)) (rh : packetBuffer -> XRHeader -> res (packetBuffer * XRHeader))\n    (rb : packetBuffer -> ReportBlock -> res (packetBuffer * ReportBlock)) (b : bytes) : option sval :=\n")
+		if has("ExtendedReport.Unmarshal") && same {
+			b.WriteString("  Some (sres (fun g => SL (show_ExtendedReport g)) (ExtendedReport_Unmarshal r32 rh rb (mkExtendedReport 0 []) b)).\n\n")
+		} else {
+			b.WriteString("  None.\n\n")
+		}
+	}
+}
+
 func genFuncs(l *loaded, want []string) []byte { return genFuncsMod(l, want, "GoSrc", "") }
 
 // genFuncsMod: module name and suffix of the three summary lists
 func genFuncsMod(l *loaded, want []string, mod, suffix string) []byte {
 	t := newTranslator(l)
+	if mod == "GoSrcXr" {
+		// the records Check/XrOracles.v is written against exist whatever happens to the functions
+		for _, n := range []string{"Header", "XRHeader", "packetBuffer", "ExtendedReport"} {
+			t.needStruct(n)
+		}
+		t.needIface("ReportBlock")
+	}
 	for _, k := range want {
 		t.translate(k)
 	}
@@ -3661,9 +3708,9 @@ func genFuncsMod(l *loaded, want []string, mod, suffix string) []byte {
 	b.Write(t.body.Bytes())
 	if len(t.mOracles) > 0 {
 		b.WriteString("End MethodOracles.\n\n")
-	} else {
-		t.emitCodecs(&b)
 	}
+	t.emitCodecs(&b)
+	t.emitEntryPoints(&b, mod)
 	b.WriteString("End " + mod + ".\n\n")
 	sort.Strings(t.emitted)
 	b.WriteString("Definition translated_functions" + suffix + " : list string := [")
